@@ -802,9 +802,8 @@ with builtin_call (n : nat) (fr : list frame) (b : builtin) (args : list value) 
       | VTab r => do t <- read_tab r;
           if negb (border_unique (t_kv t)) then unsup 5 else
           let e := border (t_kv t) in
-          if e =? 0 then (match a2 with VNil => ret [VNil] | _ => unsup 17 end) else
           do pos <- opt_int a2 e;
-          if (pos <? 1) || (pos >? e) then unsup 17 else
+          if (pos <? 1) || (pos >? e) then ret [] else   (* outside 1..#t, empty list included: no value *)
           let v := kv_get (t_kv t) (vint pos) in
           let moved := seq_get (t_kv t) (pos + 1) (Z.to_nat (e - pos)) in
           write_tab r (mkTab (set_seq (t_kv t) pos (moved ++ [VNil])) (t_meta t)) ;; ret [v]
